@@ -40,9 +40,10 @@ var (
 )
 
 var shims = map[string]string{
-	"sync":    "/vsync",
-	"time":    "/vtime",
-	"context": "/vcontext",
+	"sync":        "/vsync",
+	"time":        "/vtime",
+	"context":     "/vcontext",
+	"sync/atomic": "/vatomic",
 }
 
 func fatal(f string, a ...any) {
@@ -246,7 +247,7 @@ func (t *tr) sharedVars(f *ast.File, shared map[types.Object]bool) {
 	if len(shared) == 0 {
 		return
 	}
-	yield := func() ast.Stmt { return &ast.ExprStmt{X: t.call("Yield")} }
+	yield := func() ast.Stmt { return &ast.ExprStmt{X: t.call("SharedOp")} }
 	fix := func(list []ast.Stmt) []ast.Stmt {
 		var out []ast.Stmt
 		for _, s := range list {
@@ -425,6 +426,21 @@ func (t *tr) expr(e ast.Expr) ast.Expr {
 			return c
 		}
 	case *ast.CallExpr:
+		if sel, ok := v.Fun.(*ast.SelectorExpr); ok {
+			if fn, ok := t.info.Uses[sel.Sel].(*types.Func); ok && fn.Pkg() != nil {
+				switch pkg, name := fn.Pkg().Path(), fn.Name(); {
+				case pkg == "runtime" && name == "Gosched":
+					t.cnt["gosched"]++
+					return t.call("Yield")
+				case pkg == "runtime" && name == "Goexit":
+					fatal("%s: runtime.Goexit has no counterpart on the simulated runtime", t.fset.Position(v.Pos()))
+				case pkg == "reflect" && (name == "Select" || name == "ChanOf" || name == "MakeChan" || name == "Send" || name == "Recv" || name == "TrySend" || name == "TryRecv" || name == "Close"):
+					// a channel operation through reflection would act on the simulated channel object as if it
+					// were a Go channel: refuse instead of misexecuting
+					fatal("%s: channel operation through package reflect (reflect.%s)", t.fset.Position(v.Pos()), name)
+				}
+			}
+		}
 		if isBuiltin(t.info, v.Fun, "recover") && !t.wrapped[v] {
 			// the simulated runtime unwinds blocked threads with a sentinel panic that translated code must not swallow
 			t.cnt["recover"]++
